@@ -218,3 +218,40 @@ Definition walk_R := walk R Rplus Rminus Rmult Rdiv Rleb IZR.
 Definition integ0_R := integ0 R Rplus Rminus Rmult Rdiv Rleb IZR.
 Definition integ_R := integ R Rplus Rminus Rmult Rdiv Rleb IZR.
 Definition mean_R := mean R Rplus Rminus Rmult Rdiv Rleb IZR.
+Definition sfind_R := sfind R Rleb.
+
+(* ---- internals::lower_bound as written (bisection on [first, first + len)), on the list of abscissae, and the spline
+   evaluation through the index it returns (computeCubicSplineInterpolation(AndDerivative), CubicSpline::getValues) *)
+Section Bisect.
+  Variable T : Type.
+  Variables (add sub mul div : T -> T -> T) (leb : T -> T -> bool) (ofZ : Z -> T).
+  Fixpoint lbound (fuel : nat) (xs : list T) (x : T) (first len : nat) : nat :=
+    match fuel with
+    | O => first
+    | S f => match len with
+             | O => first
+             | S _ => let half := Nat.div2 len in
+                      (* comp( *middle, val) is middle->x < val, i.e. not (val <= middle->x) *)
+                      if leb x (nth (first + half) xs (ofZ 0)) then lbound f xs x first half
+                      else lbound f xs x (first + half + 1) (len - half - 1)
+             end
+    end.
+  Definition lower_bound (xs : list T) (x : T) : nat := lbound (S (length xs)) xs x 0 (length xs).
+  Definition p000 : pt3 T := (ofZ 0, ofZ 0, ofZ 0).
+  Definition spl_bs (extrap : bool) (pts : list (pt3 T)) (x : T) : option (T * T * T) :=
+    match pts with
+    | [] => None
+    | [p] => Some (clamp T ofZ p)
+    | p0 :: _ =>
+        let i := lower_bound (map (px T) pts) x in
+        if Nat.eqb i 0 then Some (if extrap then ext T add sub mul ofZ p0 x else clamp T ofZ p0)
+        else let ip := nth (i - 1) pts p000 in
+             if Nat.eqb i (length pts) then Some (if extrap then ext T add sub mul ofZ ip x else clamp T ofZ ip)
+             else let p := nth i pts p000 in
+                  Some (cubic T add sub mul div ofZ (px T ip) (py T ip) (pd T ip) (px T p) (py T p) (pd T p) x)
+    end.
+End Bisect.
+Definition spl_bs_Q := spl_bs Q Qadd' Qsub' Qmul' Qdiv' Qleb inject_Z.
+Definition spl_bs_R := spl_bs R Rplus Rminus Rmult Rdiv Rleb IZR.
+Definition lower_bound_R := lower_bound R Rleb IZR.
+Definition lbound_R := lbound R Rleb IZR.
